@@ -11,6 +11,7 @@ import (
 	"encoding/json"
 	"errors"
 	"fmt"
+	"net"
 	"os"
 	"time"
 
@@ -50,6 +51,9 @@ type scenario struct {
 	// SlowDeadline: the transport's SetDeadline takes one second (virtual) before it takes effect: NewConn has to wait for its
 	// watcher however long that call takes - returning earlier would let the deadline land on a connection it has handed over
 	SlowDeadline bool `json:"set_deadline_takes_1s,omitempty"`
+	// TCPLike: the transport also offers CloseRead and CloseWrite, as *net.TCPConn does (optional methods that code may look for
+	// with a type assertion): everything the property says holds over such a transport too
+	TCPLike bool `json:"transport_offers_closeread_closewrite,omitempty"`
 }
 
 const priorDeadline = 100 * unit
@@ -188,7 +192,11 @@ func run(sc scenario, choose vs.Chooser, traceOn bool) (*observation, *vs.Sched,
 		if sc.PriorDeadline {
 			t.SetDeadline(vs.Base.Add(priorDeadline))
 		}
-		conn, err := ech.NewConn(ctx, t, opts...)
+		var nc net.Conn = t
+		if sc.TCPLike {
+			nc = vnet.TCPLike{Conn: t}
+		}
+		conn, err := ech.NewConn(ctx, nc, opts...)
 		ob.newConnErr, ob.returnedAt, ob.returned = err, vs.Elapsed(), true
 		ob.seqAtReturn = t.Seq()
 		ob.rdlAtReturn, ob.wdlAtReturn = t.Deadlines()
@@ -402,6 +410,22 @@ func scenarios() []scenario {
 	for _, h := range []string{"buffered", "late", "two-records"} {
 		for _, c := range []string{"t0", "t1", "before-call", "deadline2"} {
 			out = append(out, scenario{Hello: h, Cancel: c, Keys: true, BlockedWrites: true})
+		}
+	}
+	// a transport that offers CloseRead/CloseWrite like a TCP connection
+	for _, h := range []string{"buffered", "late", "two-records", "first-record-only", "never", "bad-record", "rejected-hello"} {
+		for _, c := range []string{"never", "t0", "t1", "t3", "before-call", "after-return", "deadline2"} {
+			if (h == "never" || h == "first-record-only" || h == "bad-record" || h == "rejected-hello") && c == "after-return" {
+				continue
+			}
+			if (h == "never" || h == "first-record-only") && c == "never" {
+				continue // nothing ever ends the wait: NewConn legitimately blocks
+			}
+			out = append(out, scenario{Hello: h, Cancel: c, Keys: true, TCPLike: true})
+			if h == "buffered" || h == "late" || h == "two-records" {
+				// (the connection is used after the return: a read side that was shut down meanwhile shows here)
+				out = append(out, scenario{Hello: h, Cancel: c, Keys: true, TCPLike: true, Retry: true}, scenario{Hello: h, Cancel: c, Keys: true, TCPLike: true, PriorDeadline: true})
+			}
 		}
 	}
 	// a transport whose SetDeadline takes a second: the watcher's call may be under way when the hello has been read
